@@ -599,11 +599,16 @@ def check_point_location(case, rec):
 
     closed_form = types in ("TRI3", "TETRA4")  # every element of the mesh takes the closed-form inverse map
 
+    # the enumerated tables (fixed geometries in O(1) units) are located to 6e-15 of the field scale on the unchanged tree (thorough
+    # tier, measured by loc_err_over_field_scale), far below the general bound above, which the generated cases do come close to
+    # (2e-8: least_squares stopping on its absolute gtol): the tables are held to 1e-10 of the field scale
+    tight = bool(case.get("tight"))
+
     def tol_of(mt):
-        return 1e-10 if closed_form else 1e-6
+        return 1e-10 if (closed_form or tight) else 1e-6
 
     def scale_of(mt):
-        return fscale if closed_form else iter_scale
+        return fscale if (closed_form or tight) else iter_scale
 
     def name_of(mt):
         # separate names so that the honest-error record of the affine classes is not polluted by finding C08-g
@@ -629,6 +634,8 @@ def check_point_location(case, rec):
         rec.close(v[0, 0] - exact[i], scale_of(mt), tol_of(mt), name_of(mt),
                   f"{types}: degree-{deg} polynomial {coefs} at {x.tolist()} ({mt['kind']}, {mt['geometry']} {mt['group']}): "
                   f"{v[0, 0]!r} vs {exact[i]!r}", fam="value", **sig)
+        if not closed_form:
+            rec.note_max("loc_err_over_field_scale:" + mt["kind"], abs(float(v[0, 0] - exact[i])) / fscale)
 
     # as a batch
     keep = list(range(len(pts)))
@@ -964,7 +971,7 @@ def enum_location(tier):
                             w = [(3 * j + 5 * k + q * 7 + 2) % 16 for q in range(5)]
                             queries.append([j, ei, kind] + w)
                     yield dict(recipe=r, para=(gname == "para"), warp=None, ops=_OPS[ops], deg=deg, coefs=coefs,
-                               queries=queries, allow_cluster=False, elem_arg="reversed", elem_seed=0)
+                               queries=queries, allow_cluster=False, elem_arg="reversed", elem_seed=0, tight=True)
 
 
 SUBS = [
